@@ -128,6 +128,19 @@ def _torn(rng, uni):
     target = urllib.parse.urljoin(url, ref)
     inc = {"t": "%include " + ref, "role": "include", "ref": ref,
            "target": target}
+    # third shape: the fragment CLOSES the section it is included in and
+    # OPENS the next sibling -- its own depth ends at zero, yet it closes a
+    # section it did not open and leaves one open
+    sib = [(u2, o2, c2) for (u2, o2, c2) in cands
+           if u2 == url and o2 > c and not any(
+               ln["role"] in ("open", "close") for ln in lines[c + 1:o2])]
+    sib.sort(key=lambda t: t[1])
+    if sib and rng.random() < 0.6:
+        _u2, o2, _c2 = sib[0]
+        frag = lines[c:o2 + 1]
+        uni["res"][url] = lines[:c] + [inc] + lines[o2 + 1:]
+        uni["res"][target] = list(frag)
+        return True
     if rng.random() < 0.5:
         # fragment opens the section and leaves it open
         frag = lines[o:c]
@@ -189,8 +202,8 @@ def generate(rng, tier, index):
     xml = G.render_schema(ir)
     uni = layout.cut(rng, lines, ncuts=rng.choice([1, 1, 2, 3]), decoys=True)
     variant = rng.choice(["plain", "plain", "plain", "invalid", "invalid",
-                          "torn-cut", "missing-fragment", "open-fault",
-                          "define-conflict", "define-repeat",
+                          "torn-cut", "torn-cut", "missing-fragment",
+                          "open-fault", "define-conflict", "define-repeat",
                           "include-twice"])
     plan = {"prop": ID, "schema_xml": xml, "top": uni["top"],
             "variant": variant, "fault": None}
@@ -246,6 +259,13 @@ def generate(rng, tier, index):
     plan["realfs"] = (rng.random() < 0.25 and not plan["fault"] and all(
         u.startswith("file:///sim/") and "%" not in u
         for u in list(store) + list(plan["decoys"])))
+    plan["symlink"] = None
+    if plan["realfs"] and frags and rng.random() < 0.4:
+        # prefer a fragment that itself includes something
+        nested = [u for u in frags if u in store and _INC.search(store[u])
+                  ] if False else [u for u in frags if u in store and any(
+                      _INC.match(x) for x in store[u].split("\n"))]
+        plan["symlink"] = rng.choice(nested or frags)
     return plan
 
 
@@ -290,6 +310,31 @@ def execute(plan):
             os.makedirs(os.path.dirname(p), exist_ok=True)
             with open(p, "w", encoding="utf-8", newline="") as f:
                 f.write(t)
+        # one fragment is reached through a symbolic link whose target lives
+        # in another directory (with decoys for ITS relative includes next to
+        # the target): a resource's URL is the name it was asked for by
+        link = plan.get("symlink")
+        if link:
+            lp = _to_real(link, scratch)[len("file://"):]
+            if os.path.isfile(lp):
+                tdir = os.path.join(scratch, "linktargets", "x", "y")
+                os.makedirs(tdir)
+                tp = os.path.join(tdir, os.path.basename(lp))
+                os.rename(lp, tp)
+                os.symlink(tp, lp)
+                with open(tp, encoding="utf-8", newline="") as f:
+                    ltext = f.read()
+                for line in ltext.split("\n"):
+                    m = _INC.match(line)
+                    if m and "$" not in m.group(1) and ":" not in \
+                            m.group(1) and not m.group(1).startswith("/"):
+                        dp = os.path.normpath(os.path.join(tdir, m.group(1)))
+                        if dp.startswith(scratch) and not os.path.exists(dp):
+                            os.makedirs(os.path.dirname(dp), exist_ok=True)
+                            with open(dp, "w") as f:
+                                f.write(layout.DECOY_TEXT)
+                            decoys["file://" + dp] = layout.DECOY_TEXT
+                out["probes"]["fragment-through-symlink"] = 1
         p2 = dict(plan)
         p2["missing"] = missing
         return _execute(p2, out, store, decoys, _to_real(plan["top"], scratch),
